@@ -19,7 +19,7 @@ from fsic.extensions import AliasMixin, TracerMixin
 
 from .. import scripted
 from ..core.observe import observe, diff_obs, class_state
-from ..core.runner import Acc, guard, CaseTimeout
+from ..core.runner import Acc, guard, CaseTimeout, robust
 
 ID = 'C11'
 LEVEL = 'model_checking'
@@ -204,6 +204,7 @@ def class_mutables(cls):
 # --------------------------------------------------------------------------- scenario
 
 
+@robust(1, True)
 def run_scenario(case):
     kind, pre, route, side, post = case['kind'], case['pre'], case['route'], case['side'], case['post']
     out = []
@@ -288,6 +289,7 @@ def _restore_class(cls):
                 v.update(dict(snap[k]))
 
 
+@robust()
 def run_static_case(case):
     """Sharing walk between an instance and its class, and between two sibling instances (no mutation needed)."""
     kind = case['kind']
